@@ -212,6 +212,7 @@ func ErrorFate(p *Program, call ssa.CallInstruction) (lost string) {
 			return absent(FactOf(ifi.Cond, k == 0))
 		}},
 		CutInstrEnv: consumed,
+		CutFactEnv:  absent, // `case err != nil && IsNotFound(err):` is a phi; on the path that evaluated IsNotFound the edge says so
 		Exceeded:    &exceeded,
 	})
 	if exceeded {
